@@ -171,8 +171,8 @@ def applyForward (s : State) : Change → Option Delta
   | .mutual _ fo =>
     some ({ s with mutualHeight := some s.height }, [], [fo])
 
-/-- As the code is: note that for `htlcSpent` and `secondSpent` the returned `adds`/`removes` are
-*not* the ones of the forward direction (see notes/C13-C15.md, finding F13). -/
+/-- Returns the same `adds`/`removes` as the forward direction for every change (the caller reverts
+them); for `htlcSpent`/`secondSpent` this is the repaired code (fix fc0e6dd, finding F16). -/
 def applyBackward (s : State) : Change → Option Delta
   | .fundingConfirmed op =>
     if s.fundingHeight = some s.height then
@@ -192,11 +192,11 @@ def applyBackward (s : State) : Change → Option Delta
     match s.closing with
     | none => none
     | some c => (c.setHtlcSpent vout false).map fun c' =>
-        ({ s with closing := some (c'.removeSecond sl) }, [(c.txid, vout)], [sl])
+        ({ s with closing := some (c'.removeSecond sl) }, [sl], [(c.txid, vout)])
   | .secondSpent op =>
     match s.closing with
     | none => none
-    | some c => (c.setSecondSpent op false).map fun c' => ({ s with closing := some c' }, [op], [])
+    | some c => (c.setSecondSpent op false).map fun c' => ({ s with closing := some c' }, [], [op])
   | .mutual _ fo =>
     some ({ s with mutualHeight := none }, [], [fo])
 
